@@ -27,7 +27,7 @@ MONITORS = ["c11"]
 def build_cases(ctx):
     n = ctx.budget(300, 6000) // 2           # histories; each is run in both formats
     ng = n // 3
-    base = gwcheck.gen_cases(ctx, "c11", ng, mqtt_rate=0.1)
+    base = scenarios_a.generic_cases(ctx, "c11", ng, mqtt_rate=0.1)
     for i, c in enumerate(base):
         rng = ctx.rng("c11s", i)
         c["ops"] = scenarios_a.sprinkle_persistence(rng, c["ops"], 0.03, 0.02) + [("restart",)]
